@@ -342,6 +342,32 @@ def run(world, rep, tier, only=None):
                 bad.append(x)
     rep.ob("C13.a", "lib/ext2fs:*:mmp_fd never written", not bad, "no write(2)-family call on fs->mmp_fd: %s" % [b.where() for b in bad])
 
+    # ---------------------------------------------------------------- C13.f stacked I/O managers keep the caller's mode
+    # undo_io and test_io sit between ext2fs_open2 and the unix manager: whatever mode ext2fs_open2 derived must reach
+    # the backing manager's open of the *device* unchanged; IO_FLAG_RW may be spelled out only for a private file.
+    ef_ = world.program("e2fsck")
+    wrappers = [f for f in ef_.functions() if f.name in ef_.slot_names("struct_io_manager", "open")
+                and calls_to(f, "struct_io_manager.open")]
+    rep.floor("C13.f stacked managers' open functions", len(wrappers), 2)
+    for wf in wrappers:
+        params = [p_["n"] for p_ in wf.raw.get("params", [])]
+        name_p, flags_p = (params + [None, None])[:2]
+        for (n, gl) in introductions(wf, "IO_FLAG_RW"):
+            if n.ev["e"] == "C" and is_call(n, "struct_io_manager.open"):
+                private = name_p not in T.vars_in(arg(n, 0)) and not depends_on(wf, arg(n, 0), lambda y: T.path(y) == name_p, depth=1)
+                rep.ob("C13.f", site(wf, "IO_FLAG_RW spelled out only for a private file"), private,
+                       "backing open(%s, %s)" % (T.pp(arg(n, 0))[:30], T.pp(arg(n, 1))[:30]))
+            elif n.ev["e"] == "S" and isinstance(T.strip(n.ev.get("rhs")), dict) and T.strip(n.ev["rhs"]).get("k") == "c":
+                continue    # the result of a call stored: the call's arguments are judged at the call event
+            else:
+                rep.ob("C13.f", site(wf, "no IO_FLAG_RW added to the caller's flags"), False,
+                       "`%s` (line %d) puts IO_FLAG_RW into a value of the open function" % (n.text()[:50], n.line))
+        devopens = [n for n in calls_to(wf, "struct_io_manager.open") if name_p in T.vars_in(arg(n, 0))]
+        rep.floor("C13.f backing open of the device in %s" % wf.name, len(devopens), 1)
+        for n in devopens:
+            rep.ob("C13.f", site(wf, "device opened with the caller's flags"), T.path(arg(n, 1)) == flags_p,
+                   "backing open(%s, %s)" % (T.pp(arg(n, 0))[:30], T.pp(arg(n, 1))[:30]))
+
     # ---------------------------------------------------------------- C13.c e2fsck bypasses
     rows, _ = problems.load(world)
     bycode = problems.by_code(rows)
